@@ -16,13 +16,13 @@ import (
 
 // XScenario for the context combinators.
 type CtxScenario struct {
-	Kind    string  `json:"kind"`  // combine | conflated | chain
-	N       int     `json:"n"`     // others (combine) / inputs (conflated); chain: fixed 2 contexts
-	Pre     []int   `json:"pre"`   // inputs cancelled before construction
-	Nils    []int   `json:"nils"`  // combine: others that are nil
-	Steps   [][]int `json:"steps"` // each step cancels these inputs at once (through one common parent); -1 = the returned cancel func
-	Race    bool    `json:"race,omitempty"` // the first two steps (or construction and the first step) run concurrently
-	CRace   bool    `json:"crace,omitempty"` // with Race: the construction races the first cancellation step
+	Kind    string  `json:"kind"`                // combine | conflated | chain
+	N       int     `json:"n"`                   // others (combine) / inputs (conflated); chain: fixed 2 contexts
+	Pre     []int   `json:"pre"`                 // inputs cancelled before construction
+	Nils    []int   `json:"nils"`                // combine: others that are nil
+	Steps   [][]int `json:"steps"`               // each step cancels these inputs at once (through one common parent); -1 = the returned cancel func
+	Race    bool    `json:"race,omitempty"`      // the first two steps (or construction and the first step) run concurrently
+	CRace   bool    `json:"crace,omitempty"`     // with Race: the construction races the first cancellation step
 	Jitter  int     `json:"jitter_ns,omitempty"` // the second racer starts this many ns after the first (busy wait)
 	Profile string  `json:"profile"`
 }
